@@ -1,8 +1,11 @@
 package props
 
 import (
+	"encoding/json"
 	"strings"
+	"time"
 
+	"github.com/cosmos/cosmos-sdk/codec"
 	sdk "github.com/cosmos/cosmos-sdk/types"
 	pnfttypes "github.com/medibloc/panacea-core/v2/x/pnft/types"
 
@@ -167,4 +170,61 @@ func (g *G) genPnftTx() *world.TxStep {
 	}
 	// PNFT messages do not implement the legacy amino-JSON message interface
 	return g.wrapTx(msgs, note, false)
+}
+
+// genPnftGenesis draws a pnft genesis section InitChain accepts: denoms whose owner strings
+// are canonical, upper-case, addresses of other lengths or no address at all (the genesis
+// validation only demands a non-empty owner), and tokens held by any valid address. With
+// lax=true tokens may lack created_at, which the offline validate-genesis refuses but
+// InitChain imports.
+func (g *G) genPnftGenesis(cdc codec.JSONCodec, lax bool) json.RawMessage {
+	gs := pnfttypes.DefaultGenesis()
+	ids := []string{"a", "ab", "abc", "b", "A", "a/", "a b", "a-1"}
+	acct := func(label string) string { return g.W0Accts[g.intn(label, len(g.W0Accts))].Addr.String() }
+	owner := func(label string, mayGarbage bool) string {
+		kinds := []interface{}{"canonical", 6, "upper", 2, "ghost", 2}
+		if mayGarbage {
+			kinds = append(kinds, "garbage", 2)
+		}
+		switch g.weighted(label+"-kind", kinds...) {
+		case "upper":
+			return strings.ToUpper(acct(label))
+		case "ghost":
+			return pick(g, label+"-ghost", ghostAddresses())
+		case "garbage":
+			return pick(g, label+"-garbage", []string{"not-an-address", "panacea1", "cosmos1qypqxpq9qcrsszg2pvxq6rs0zqg3yyc5lzv7xu", " "})
+		}
+		return acct(label)
+	}
+	created := time.Date(2023, 5, 6, 7, 8, 9, 0, time.UTC)
+	seen := map[string]bool{}
+	n := 1 + g.intn("gen-denoms", 4)
+	for i := 0; i < n; i++ {
+		id := pick(g, "gen-denom-id", ids)
+		if seen[id] {
+			continue
+		}
+		seen[id] = true
+		gs.Denoms = append(gs.Denoms, &pnfttypes.Denom{Id: id, Name: "n", Symbol: "S", Description: pick(g, "gen-desc", []string{"", "from genesis"}),
+			Uri: pick(g, "gen-uri", []string{"", "u"}), Data: pick(g, "gen-data", []string{"", "{}"}), Owner: owner("gen-denom-owner", true)})
+		tseen := map[string]bool{}
+		for j := g.intn("gen-tokens", 4); j > 0; j-- {
+			tid := pick(g, "gen-token-id", ids)
+			if tseen[tid] {
+				continue
+			}
+			tseen[tid] = true
+			at := created.Add(time.Duration(j) * time.Second)
+			if lax && g.chance("gen-no-created-at", 25) {
+				at = time.Time{}
+			}
+			gs.Pnfts = append(gs.Pnfts, &pnfttypes.Pnft{DenomId: id, Id: tid, Name: "t", Description: "", Uri: pick(g, "gen-turi", []string{"", "u"}),
+				Data: pick(g, "gen-tdata", []string{"", "x"}), Creator: owner("gen-token-creator", true), Owner: owner("gen-token-owner", false), CreatedAt: at})
+		}
+	}
+	bz, err := cdc.MarshalJSON(gs)
+	if err != nil {
+		panic(err)
+	}
+	return bz
 }
